@@ -12,7 +12,7 @@
                             None (no end-of-data line: ConnectionLost) | Some (None, rest)
                             (MessageTooBig) | Some (Some data, rest);  the size of a message is
                             the number of stream bytes up to and including its end-of-data line
-     run_server_stream mx vb envs buf chunks
+     run_server_stream mx ctx vb envs buf chunks
                             the whole session of Server.handle + SmtpSession with SIZE limit mx
                             (no AUTH, no TLS), banner verdict vb, application decisions envs
                             (one entry per command line read): (items given to C07's `step`,
@@ -85,23 +85,23 @@ Print Assumptions C09_read_spec_lim_complete.
 (* The server: incremental = batch.  The items handed to the command machine, every reply,
    every callback with its arguments and the message content, and the way the session ends
    are those of the one-string server on buf ++ concat chunks. *)
-Theorem C09_server_inc_eq_batch : forall mx vb envs (buf : bytes) (chunks : list bytes),
+Theorem C09_server_inc_eq_batch : forall mx ctx vb envs (buf : bytes) (chunks : list bytes),
   Forall (fun c => c <> []) chunks ->
-  run_server_stream mx vb envs buf chunks = run_server_batch mx vb envs (buf ++ concat chunks).
+  run_server_stream mx ctx vb envs buf chunks = run_server_batch mx ctx vb envs (buf ++ concat chunks).
 Proof. exact run_server_stream_batch. Qed.
 Print Assumptions C09_server_inc_eq_batch.
 
 (* THE PROPERTY: two segmentations of the same client byte stream (byte by byte, command by
    command, one pipelined burst, any part of it already buffered) give the same replies, the
    same callback trace with the same arguments and message content, the same end. *)
-Theorem C09_server_segmentation_independent : forall mx vb envs (buf buf' : bytes) (chunks chunks' : list bytes),
+Theorem C09_server_segmentation_independent : forall mx ctx vb envs (buf buf' : bytes) (chunks chunks' : list bytes),
   Forall (fun c => c <> []) chunks -> Forall (fun c => c <> []) chunks' ->
   buf ++ concat chunks = buf' ++ concat chunks' ->
-  run_server_stream mx vb envs buf chunks = run_server_stream mx vb envs buf' chunks'
-  /\ observable (run_server_stream mx vb envs buf chunks) = observable (run_server_stream mx vb envs buf' chunks').
+  run_server_stream mx ctx vb envs buf chunks = run_server_stream mx ctx vb envs buf' chunks'
+  /\ observable (run_server_stream mx ctx vb envs buf chunks) = observable (run_server_stream mx ctx vb envs buf' chunks').
 Proof.
-  intros mx vb envs buf buf' chunks chunks' H H' E.
-  pose proof (server_segmentation_independent mx vb envs buf chunks buf' chunks' H H' E) as S.
+  intros mx ctx vb envs buf buf' chunks chunks' H H' E.
+  pose proof (server_segmentation_independent mx ctx vb envs buf chunks buf' chunks' H H' E) as S.
   split; [exact S|]. rewrite S. reflexivity.
 Qed.
 Print Assumptions C09_server_segmentation_independent.
@@ -114,9 +114,9 @@ Proof. exact run_stream_batch. Qed.
 Print Assumptions C09_loop_inc_eq_batch.
 
 (* the recursion bound is never what ends a session *)
-Theorem C09_fuel_sufficient : forall mx vb envs (buf : bytes) (chunks : list bytes),
+Theorem C09_fuel_sufficient : forall mx ctx vb envs (buf : bytes) (chunks : list bytes),
   Forall (fun c => c <> []) chunks ->
-  snd (run_server_stream mx vb envs buf chunks) <> SFuel.
+  snd (run_server_stream mx ctx vb envs buf chunks) <> SFuel.
 Proof. exact run_server_stream_fuel. Qed.
 Print Assumptions C09_fuel_sufficient.
 
@@ -157,6 +157,24 @@ Theorem C09_commands_not_swallowed : forall fuel st en envs (dl : bytes) (ls : l
 Proof. exact commands_not_swallowed. Qed.
 Print Assumptions C09_commands_not_swallowed.
 
+(* STARTTLS without a handshake leaves the stream alone.  A STARTTLS line that a
+   handlers.STARTTLS hook refuses (any verdict but 220 that does not close the session): for
+   ANY segmentation - the following commands glued to the STARTTLS line in one recv() or
+   arriving later - the server answers the hook's code and goes on, in the same state, exactly
+   as a server handed all of `rest`.  (The arms "not offered" 500, "argument" 501, "before
+   EHLO" 503 are arms of C07's `step`, which never sees the stream, and are covered by
+   C09_server_inc_eq_batch like every command; only STARTTLS answered 220 is exempt: C08.) *)
+Theorem C09_starttls_refused_keeps_stream : forall fuel st en envs (l rest : bytes) o (buf : bytes) (chunks : list bytes),
+  Forall (fun c => c <> []) chunks -> buf ++ concat chunks = l ++ 10 :: rest ->
+  nolf l = true ->
+  starttls_hook st (mk_item en (parse_line (strip_cr l)) [] 0) = true ->
+  hook_out (n_tls en) = Some o -> o_fin o = Continue ->
+  run_stream (S fuel) st (en :: envs) buf chunks =
+  (let '(its, os, f) := run_stream fuel st envs rest [] in
+   (mk_item en (parse_line (strip_cr l)) [] 0 :: its, o :: os, f)).
+Proof. exact starttls_refused. Qed.
+Print Assumptions C09_starttls_refused_keeps_stream.
+
 (* the front end's decision to call the reader is the command machine's: exactly then the
    machine answers 354 and calls the DATA handler first; otherwise it ignores the message
    fields of the item *)
@@ -168,18 +186,21 @@ Theorem C09_reader_called_iff_354 : forall st e l d w,
 Proof. intros st e l d w. split; [apply reads_data_true|apply reads_data_false]. Qed.
 Print Assumptions C09_reader_called_iff_354.
 
-(* The stream front end refines C07: the items it produced from the bytes, given to C07's
+(* The stream front end refines C07 (handlers object without a STARTTLS hook, like the real
+   SmtpSession: no_hook): the items it produced from the bytes, given to C07's
    run_session, yield exactly the outputs of the stream server (for a session that was not cut
    off inside a message) - so every C07 theorem holds of the server under any segmentation;
    e.g. the callback trace is in protocol order. *)
-Theorem C09_stream_refines_session : forall mx vb envs (buf : bytes) (chunks : list bytes) its os f,
-  run_server_stream mx vb envs buf chunks = (its, os, f) -> complete f ->
-  exists stf, run_session (stream_cfg mx) vb its = (os, stf, fin_of f).
+Theorem C09_stream_refines_session : forall mx ctx vb envs (buf : bytes) (chunks : list bytes) its os f,
+  no_hook envs ->
+  run_server_stream mx ctx vb envs buf chunks = (its, os, f) -> complete f ->
+  exists stf, run_session (stream_cfg mx ctx) vb its = (os, stf, fin_of f).
 Proof. exact stream_refines_session. Qed.
 Print Assumptions C09_stream_refines_session.
 
-Theorem C09_stream_callbacks_in_order : forall mx vb envs (buf : bytes) (chunks : list bytes),
-  complete (snd (run_server_stream mx vb envs buf chunks)) ->
-  accepts (events_of (snd (fst (run_server_stream mx vb envs buf chunks)))) = true.
+Theorem C09_stream_callbacks_in_order : forall mx ctx vb envs (buf : bytes) (chunks : list bytes),
+  no_hook envs ->
+  complete (snd (run_server_stream mx ctx vb envs buf chunks)) ->
+  accepts (events_of (snd (fst (run_server_stream mx ctx vb envs buf chunks)))) = true.
 Proof. exact stream_callbacks_in_order. Qed.
 Print Assumptions C09_stream_callbacks_in_order.
